@@ -96,6 +96,7 @@ PROPS.update({
 GEN_DERIVE = [["python3", "tools/gen_derive.py"]]
 PROPS["C13"]["pre"] = GEN_DERIVE
 PROPS["C07"]["pre"] = GEN_DERIVE
+PROPS["C07"]["runs"].append(dict(features=["c07", "big"], cfg="nostd", stubbing=True, jobs=2, mem_gb=28, harness_timeout=1500, timeout=7200, filters={"quick": [], "thorough": ["c07h_"]}))
 PROPS["C07"]["runs"].append(dict(features=["c07"], cfg="std", jobs=8, filters={"quick": ["c07q_iow"], "thorough": ["c07q_iow", "c07t_iow", "c07q_ent_vec_opt_2", "c07q_ent_u32", "c07q_ent_string_2", "c07q_bulk_enc_u16"]}))
 PROPS["C16"]["pre"] = GEN_DERIVE
 PROPS["C01"]["pre"] = GEN_DERIVE
@@ -143,17 +144,18 @@ PROPS.update({
 # enc_X == enc_Y; likewise accept/reject and values. The no-std configuration is what C01/C03/C04 run; here the same
 # harness sets are decided under std (+chain-error, io::Write blanket Output), no-std + chain-error, and with every optional
 # integration switched off.
-_C20_QUICK = ["c01q_u32", "c01q_i64", "c01q_f64", "c01q_compact_u64", "c01q_opt_u32", "c01q_res_opt", "c01q_tup3", "c01q_arr_opt_3", "c01q_vec_u8_3", "c01q_vec_u32_2",
-              "c01q_vec_opt_3", "c01q_vec_vec_2", "c01q_deque_u32_2", "c01q_list_u8_3", "c01q_string_3", "c01q_box_vec", "c01q_duration", "c01q_nz_u32", "c01q_borrowed_forms",
-              "c03q_u16", "c03q_bool", "c03q_optionbool", "c03q_nz_u32", "c03q_duration", "c03q_opt_opt_bool", "c03q_res_opt_compact", "c03q_tup3", "c03q_arr_opt_3", "c03q_box_u32",
-              "c03q_vec_u8_3", "c03q_vec_opt_2", "c03q_vec_u32_2", "c03q_string_3", "c03q_list_u8_2", "c03q_vec_opt_max", "c03q_string_63", "c03q_vec_u8_any_prefix",
-              "c04q_enc_u32", "c04q_enc_u128", "c04q_dec_u32", "c04q_dec_u64", "c04q_width_u32_u64"]
+_C20_CORE = ["c03q_duration", "c03q_bool", "c03q_optionbool", "c03q_nz_u32", "c03q_opt_opt_bool", "c03q_vec_u8_3", "c03q_vec_opt_2", "c03q_string_3", "c03q_vec_u8_max", "c03q_string_63",
+             "c01q_u32", "c01q_f64", "c01q_compact_u64", "c01q_opt_u32", "c01q_vec_u8_3", "c01q_vec_opt_3", "c01q_string_3", "c01q_duration", "c04q_enc_u32", "c04q_dec_u32"]
+_C20_MORE = ["c01q_i64", "c01q_res_opt", "c01q_tup3", "c01q_arr_opt_3", "c01q_vec_u32_2", "c01q_vec_vec_2", "c01q_deque_u32_2", "c01q_list_u8_3", "c01q_box_vec", "c01q_nz_u32", "c01q_borrowed_forms",
+             "c03q_u16", "c03q_res_opt_compact", "c03q_tup3", "c03q_arr_opt_3", "c03q_box_u32", "c03q_vec_u32_2", "c03q_list_u8_2", "c04q_enc_u128", "c04q_width_u16_u32"]
 PROPS["C20"] = dict(
     runs=[
-        dict(features=["c01", "c03", "c04"], cfg="std", filters={"quick": _C20_QUICK, "thorough": ["c01q_", "c03q_", "c04q_"]}),
-        dict(features=["c01", "c03", "c04"], cfg="chain", filters={"quick": _C20_QUICK[::3], "thorough": ["c01q_", "c03q_", "c04q_"]}),
-        dict(features=["c01", "c03", "c04"], cfg="nostd", noext=True, filters={"quick": _C20_QUICK[1::3], "thorough": ["c01q_", "c03q_", "c04q_"]}),
-        dict(features=["c07", "c08"], cfg="std", filters={"quick": ["c07q_ent_vec_opt_2", "c07q_ent_u32", "c07q_ent_string_2"], "thorough": ["c07q_ent_", "c08q_in_tup3", "c08q_in_vec_opt_2"]}),
+        dict(features=["c01", "c03", "c04"], cfg="std", filters={"quick": _C20_CORE + _C20_MORE, "thorough": ["c01q_", "c03q_", "c04q_"]}),
+        dict(features=["c01", "c03", "c04"], cfg="chain", filters={"quick": _C20_CORE, "thorough": ["c01q_", "c03q_", "c04q_"]}),
+        dict(features=["c01", "c03", "c04"], cfg="nostd", noext=True, filters={"quick": _C20_CORE, "thorough": ["c01q_", "c03q_", "c04q_"]}),
+        dict(features=["c07", "c08"], cfg="std", filters={"quick": ["c07q_ent_vec_opt_2", "c07q_ent_u32", "c07q_ent_string_2", "c07q_iow_vec_u16_3"], "thorough": ["c07q_ent_", "c07q_iow", "c08q_in_tup3", "c08q_in_vec_opt_2"]}),
+        dict(features=["c20", "big"], cfg="nostd", stubbing=True, jobs=2, mem_gb=28, harness_timeout=1500, timeout=7200, filters={"quick": [], "thorough": ["c20h_"]}),
+        dict(features=["c20", "big"], cfg="std", stubbing=True, jobs=2, mem_gb=28, harness_timeout=1500, timeout=7200, filters={"quick": [], "thorough": ["c20h_"]}),
     ],
     bounds="the quick harness sets of C01 (encode == model), C03 (decode == model) and C04 (compact) -- a representative third of them in the quick tier, all of them in the thorough tier -- decided in {std + chain-error (default), no-std + chain-error, no default features with every optional integration off}; the no-std + integrations configuration is what C01/C03/C04 themselves run; C07 entry points (io::Write blanket Output) under std",
     outside="fuzz/arbitrary feature (adds derives on Compact only), `full` (no-op), serde (not on the wire path)",
